@@ -181,6 +181,13 @@ def float_term(v):
     if isinstance(v, Sym):
         if v.ty == 'float':
             return v.t
+        if v.p2 is not None and v.p2[0] == 'pow':
+            # int -> float of 2**k raises OverflowError for k >= 1024
+            c = ctx()
+            big = mk_bool(v.p2[1] >= 1024)
+            if c is not None and (big is True or (big is not False and c.branch(big.t, tag='int-too-large-for-float?'))):
+                from .symex import PyRaise, make_exc
+                raise PyRaise(make_exc('OverflowError', 'int too large to convert to float'))
         return F_I2F(int_term(v))
     if isinstance(v, (bool, int)):
         return fval(float(v)) if abs(int(v)) < 2 ** 53 else fval(float(v))
